@@ -90,3 +90,120 @@ Definition expected_call_guards : list (str * str * list (N * str)) := Eval vm_c
   (lit "type_info.j2:generate_type_info", lit "type_info.j2:generate_type_info", [(1, lit "t is ArrayType"); (1, lit "t.element_type is CompositeType")]);
   (lit "type_info.j2:generate_type_info", lit "type_info.j2:generate_type_info", [(3, lit "t is ArrayType / else"); (3, lit "t.attributes | length == 0 / else"); (0, lit "attr in t.attributes"); (1, lit "attr.data_type is ArrayType")]);
   (lit "type_info.j2:generate_type_info", lit "type_info.j2:generate_type_info", [(3, lit "t is ArrayType / else"); (3, lit "t.attributes | length == 0 / else"); (0, lit "attr in t.attributes"); (2, lit "attr.data_type is ArrayType / attr.data_type is CompositeType")])]%string.
+
+(* ---------------------------------------------------------------------------------------- *)
+(* classification of output expressions, done HERE from a visible whitelist                  *)
+(* ---------------------------------------------------------------------------------------- *)
+(* classes: 0 constant, 1 number, 2 DSDL identifier / type expression, 3 escaped as a whole, 4 display_type markup,
+   8 documentation text, 9 not classified.  join = max. *)
+Definition w_ident_attrs : list str := Eval vm_compute in
+  map lit ["full_name"; "full_namespace"; "short_name"; "name"; "root_namespace"; "element_type"]%string.
+Definition w_num_attrs : list str := Eval vm_compute in map lit ["fixed_port_id"; "capacity"; "extent"; "major"; "minor"]%string.
+Definition w_esc_filters : list str := Eval vm_compute in map lit ["e"; "escape"; "forceescape"; "make_unique"]%string.
+Definition w_ident_filters : list str := Eval vm_compute in map lit ["tag_id"; "url_from_type"]%string.
+Definition w_num_filters : list str := Eval vm_compute in map lit ["extent"; "max_bit_length"; "length"; "count"; "int"; "float"; "round"; "abs"]%string.
+Definition w_id_filters : list str := Eval vm_compute in map lit ["safe"; "string"]%string.
+Definition w_display_type : str := Eval vm_compute in lit "display_type".
+Definition w_T : str := Eval vm_compute in lit "T".
+Definition w_make_unique : str := Eval vm_compute in lit "make_unique".
+
+Fixpoint var_cls (vc : list (str * str * N)) (scope x : str) : option N :=
+  match vc with
+  | [] => None
+  | (sc, y, k) :: r => if str_eqb scope sc && str_eqb x y then Some k else var_cls r scope x
+  end.
+
+Section Cls.
+Variable vc : list (str * str * N).
+
+Fixpoint cls_expr (scope : str) (e : jexpr) : N :=
+  match e with
+  | JStr s => if quote_free s then 0 else 9
+  | JNum => 1
+  | JName x => match var_cls vc scope x with Some k => k | None => if str_eqb x w_T then 2 else 9 end
+  | JCond a b => N.max (cls_expr scope a) (cls_expr scope b)
+  | JOr a b => N.max (cls_expr scope a) (cls_expr scope b)
+  | JBoolean => 0
+  | JCat a b => N.max (cls_expr scope a) (cls_expr scope b)
+  | JRepeat a b => N.max (cls_expr scope a) (cls_expr scope b)
+  | JArith _ _ => 1
+  | JAttr _ name => if str_in name w_ident_attrs then 2 else if str_in name w_num_attrs then 1 else 9
+  | JItemVersion _ => 1
+  | JReplace a _ r => if quote_free r && (cls_expr scope a <=? 3) then cls_expr scope a else 9
+  | JCount _ => 1
+  | JFilter name a =>
+      if str_in name w_esc_filters then 3
+      else if str_in name w_ident_filters then 2
+      else if str_in name w_num_filters then 1
+      else if str_eqb name w_display_type then 4
+      else if str_in name w_id_filters then cls_expr scope a
+      else 9
+  | JOther => 9
+  end.
+
+(* the certificate is an inductive invariant: every value a variable can receive is classified at most as claimed *)
+Definition bindings_consistent (bs : list (str * str * str * jexpr)) : bool :=
+  forallb (fun b => match b with (sc, x, sc', rhs) =>
+                      match var_cls vc sc x with Some k => cls_expr sc' rhs <=? k | None => false end end) bs.
+
+Definition site_cls (s : site) : N := cls_expr (st_scope s) (st_expr s).
+Definition site_safe_coq (s : site) : bool :=
+  (autoescape_selected (st_template s) && negb (st_safe_filter s))
+  || (if st_ctx s =? 0 then site_cls s <=? 4 else site_cls s <=? 3).
+End Cls.
+
+(* every variable the certificate mentions really has a binding (an unbound name can hold anything) *)
+Definition certificate_bound (vc : list (str * str * N)) (bs : list (str * str * str * jexpr)) : bool :=
+  forallb (fun e => match e with (sc, x, _) =>
+                      existsb (fun b => match b with (sc2, y, _, _) => str_eqb sc sc2 && str_eqb x y end) bs end) vc.
+
+Definition sinks_classified_safe : bool :=
+  bindings_consistent html_var_cls html_bindings && certificate_bound html_var_cls html_bindings
+  && forallb (site_safe_coq html_var_cls) html_sites.
+
+(* ---- what an output expression can evaluate to ---- *)
+Definition markup_ok (v : str) : Prop := exists ps, v = render ps /\ pieces_ok ps = true /\ balanced_frag ps.
+Definition val_ok (k : N) (v : str) : Prop :=
+  if k <=? 3 then quote_free v = true else if k =? 4 then markup_ok v else True.
+
+Section Evals.
+Variable bs : list (str * str * str * jexpr).
+
+(* possible printed values.  The DSDL grammar enters as the side conditions `quote_free v` on identifier / number leaves
+   and on the results of tag_id, url_from_type and the numeric filters (proved for the translated filters under tinfo_ok:
+   qf_tag_id, qf_url); documentation attributes, unknown attributes, unknown filters and unbound names are ARBITRARY strings *)
+Inductive evals : str -> jexpr -> str -> Prop :=
+| V_str sc s : evals sc (JStr s) s
+| V_num sc v : quote_free v = true -> evals sc JNum v
+| V_name sc x sc' rhs v : In (sc, x, sc', rhs) bs -> evals sc' rhs v -> evals sc (JName x) v
+| V_name_T sc v : quote_free v = true -> evals sc (JName w_T) v
+| V_name_free sc x v : (forall sc' rhs, ~ In (sc, x, sc', rhs) bs) -> str_eqb x w_T = false -> evals sc (JName x) v
+| V_cond_l sc a b v : evals sc a v -> evals sc (JCond a b) v
+| V_cond_r sc a b v : evals sc b v -> evals sc (JCond a b) v
+| V_or_l sc a b v : evals sc a v -> evals sc (JOr a b) v
+| V_or_r sc a b v : evals sc b v -> evals sc (JOr a b) v
+| V_bool sc v : quote_free v = true -> evals sc JBoolean v
+| V_cat sc a b va vb : evals sc a va -> evals sc b vb -> evals sc (JCat a b) (va ++ vb)
+| V_cat_num sc a b v : quote_free v = true -> evals sc (JCat a b) v
+| V_rep_l sc a b va k : evals sc a va -> evals sc (JRepeat a b) (concat (repeat va k))
+| V_rep_r sc a b vb k : evals sc b vb -> evals sc (JRepeat a b) (concat (repeat vb k))
+| V_rep_num sc a b v : quote_free v = true -> evals sc (JRepeat a b) v
+| V_arith sc a b v : quote_free v = true -> evals sc (JArith a b) v
+| V_attr_ident sc e name v : str_in name w_ident_attrs = true -> quote_free v = true -> evals sc (JAttr e name) v
+| V_attr_num sc e name v : str_in name w_num_attrs = true -> quote_free v = true -> evals sc (JAttr e name) v
+| V_attr_any sc e name v : str_in name w_ident_attrs = false -> str_in name w_num_attrs = false -> evals sc (JAttr e name) v
+| V_version sc e v : quote_free v = true -> evals sc (JItemVersion e) v
+| V_replace sc e c r v : evals sc e v -> evals sc (JReplace e c r) (str_replace1 c r v)
+| V_count sc e v : quote_free v = true -> evals sc (JCount e) v
+| V_f_escape sc name e v : str_in name w_esc_filters = true -> str_eqb name w_make_unique = false ->
+                           evals sc e v -> evals sc (JFilter name e) (markupsafe_escape v)
+| V_f_unique sc e v st : evals sc e v -> evals sc (JFilter w_make_unique e) (snd (filter_make_unique st v))
+| V_f_ident sc name e v : str_in name w_ident_filters = true -> quote_free v = true -> evals sc (JFilter name e) v
+| V_f_num sc name e v : str_in name w_num_filters = true -> quote_free v = true -> evals sc (JFilter name e) v
+| V_f_disp_t sc e d : dtype_ok d = true -> evals sc (JFilter w_display_type e) (filter_display_type (node_of_dtype d))
+| V_f_disp_i sc e di : dinst_ok di = true -> evals sc (JFilter w_display_type e) (filter_display_type (node_of_dinst di))
+| V_f_id sc name e v : str_in name w_id_filters = true -> evals sc e v -> evals sc (JFilter name e) v
+| V_f_any sc name e v : str_in name w_esc_filters = false -> str_in name w_ident_filters = false -> str_in name w_num_filters = false ->
+                        str_eqb name w_display_type = false -> str_in name w_id_filters = false -> evals sc (JFilter name e) v
+| V_other sc v : evals sc JOther v.
+End Evals.
